@@ -213,13 +213,16 @@ func genNDInput(t *rapid.T) ([]byte, string) {
 			bad = rapid.IntRange(0, n-1).Draw(t, "badline")
 		}
 		blankEvery := rapid.IntRange(0, 50).Draw(t, "blankEvery")
+		lineEnd := []string{"\n", "\n", "\r\n", " \n", "\t\r\n"}[rapid.IntRange(0, 4).Draw(t, "lineend")]
+		// a first line of generated length shifts every later line relative to blocks and index buffers
+		b.WriteString(`["` + strings.Repeat("s", rapid.IntRange(0, 130).Draw(t, "shift")) + `"]` + lineEnd)
 		for i := 0; i < n; i++ {
 			if i == bad {
 				b.WriteString(ndLineTemplates[rapid.IntRange(10, len(ndLineTemplates)-1).Draw(t, "badtmpl")])
 			} else {
 				b.WriteString(tmpl)
 			}
-			b.WriteByte('\n')
+			b.WriteString(lineEnd)
 			if blankEvery > 0 && i%blankEvery == blankEvery-1 {
 				b.WriteByte('\n')
 			}
